@@ -36,7 +36,8 @@ def inv_of(positions):
 
 def pick_dates(rng, txn_dates):
     first, last = min(txn_dates), max(txn_dates)
-    pool = [first - datetime.timedelta(days=40), first, last, last + datetime.timedelta(days=40)]
+    pool = [first - datetime.timedelta(days=40), first, last, last + datetime.timedelta(days=40), last, last + datetime.timedelta(days=1),
+            last - datetime.timedelta(days=1), first + datetime.timedelta(days=1)]
     pool += [rng.choice(txn_dates) for _ in range(3)]
     pool += [rng.choice(txn_dates) + datetime.timedelta(days=rng.choice([1, 3, 10])) for _ in range(3)]
     d = rng.choice(pool)
